@@ -3,11 +3,13 @@
 Used by C35 to decide which edited blobs still denote the *same signature* (same algorithm, same
 signature value in a non-canonical encoding) and which denote a different one.
 
-The decoder is deliberately the lenient "wire reader": a string whose declared length runs past
-the end of the buffer is zero-filled (declared lengths < 1 MiB), bytes after the last field are
-ignored.  C35 does not constrain how tolerant the *decoder* is - it constrains what happens to a
-different signature - so blobs that decode to the genuine (algorithm, value) pair form a class of
-their own (EQUIV: True or False both accepted), everything else must be rejected.
+The value decoder is the lenient "wire reader": a string whose declared length runs past the end of the
+buffer is zero-filled (declared lengths < 1 MiB), bytes after the last field are ignored; `framed_exactly`
+tells whether any of that leniency was needed.  Blobs that are framed exactly and denote the genuine
+(algorithm, value) pair in another *encoding of the integers* (RSA signature without its leading zero bytes,
+as PuTTY sends it; an mpint with redundant leading zeros; a -cert alias of the algorithm name) form a class of
+their own (EQUIV: True or False both accepted).  A truncated or extended blob is an altered signature and must
+be rejected even if zero-filling would give the genuine value back; everything else must be rejected, too.
 """
 import struct
 
@@ -78,6 +80,24 @@ def semantics(kind, blob):
     if kind == "ed25519":
         return ("ed25519", name, sig)
     raise ValueError(kind)
+
+
+def framed_exactly(kind, blob):
+    """Is the blob exactly string(name) || string(sig) - and, for ECDSA, sig exactly mpint || mpint - with no
+    field running past the end (nothing to zero-fill) and no bytes left over?  A truncated or extended blob is an
+    altered signature even when a lenient reader would recover the genuine value from it."""
+    r = Reader(blob)
+    r.string()
+    sig = r.string()
+    if r.filled or r.rest() != 0:
+        return False
+    if kind == "ecdsa":
+        i = Reader(sig)
+        i.string()
+        i.string()
+        if i.filled or i.rest() != 0:
+            return False
+    return True
 
 
 def input_class(kind, blob):
